@@ -26,7 +26,7 @@ rm -rf "$W/_build" "$W.demo_pristine" "$W.demo_mut"; git -C /repo worktree remov
 RES=""
 if git -C /repo apply "$OUT/patch.diff"; then
   for c in $CHECKS; do
-    ( cd /verif && ./check "$c" --no-proof > "$DST/check_$c.log" 2>&1 ); rc=$?
+    ( cd /verif && ./check "$c" ${MUT_FULL:+} $( [ -n "${MUT_FULL:-}" ] || echo --no-proof ) > "$DST/check_$c.log" 2>&1 ); rc=$?
     line=$(grep -m1 "^VIOLATION" "$DST/check_$c.log" | cut -c1-160)
     RES="$RES $c:rc=$rc"
     echo "check $c rc=$rc $line" | tee -a "$R"
